@@ -234,6 +234,8 @@ class VNet(object):
         aid = len(self.attempts)
 
         def cancel(d):
+            if a.state not in ("pending", "hung"):
+                return
             a.state = "cancelled"
             self.journal.append(("attempt-cancelled", aid))
             d.errback(error.ConnectingCancelledError(address.IPv4Address("TCP", host, port)))
